@@ -112,6 +112,15 @@ let () =
           | "shape" ->
               let mx = nextn c in let r = recv_of c in let cl = call_of c in
               Printf.printf "%s %s\n" tag (exn_str (check mx r cl))
+          | "boxac" ->
+              let n = nextn c in let closed = nextb c in let d = nextn c in let itv = nextb c in let st = nextb c in let nv = nextn c in
+              Printf.printf "%s %s\n" tag (exn_str (box_add_constraint_check n closed { bc_dim = d; bc_interval = itv; bc_strict = st; bc_nvars = nv }))
+          | "mipac" ->
+              let n = nextn c in let d = nextn c in let st = nextb c in
+              Printf.printf "%s %s\n" tag (exn_str (mip_add_constraint_check n d st))
+          | "mipacs" ->
+              let n = nextn c in let cs = cs_of c in
+              Printf.printf "%s %s\n" tag (exn_str (mip_add_constraints_check n cs))
           | "mapck" ->
               let n = nexti c in let k = nexti c in
               let pf = times k (fun () -> let j = nexti c in if j < 0 then None else Some (n_of_int j)) in
